@@ -432,6 +432,17 @@ theorem stConv_step (p : Program) (fuel : Nat) (ihc : StConv p fuel) (ihm : StCa
     have := ihc _ inner s te v _ n v0 n1 hin hwt (.inr ⟨64, rfl⟩) h1
     show Img p.conv.env s t v (.ptr .none (erase v0))
     exact .toPtr hs ht this
+  | @srcPtr _ _ se inner hs ht hin =>
+    unfold evalConv at hev
+    rcases wt_ptr_inv hwt hs with rfl | ⟨l, x, rfl, hx⟩
+    · have := (E_pure_ok _ _ _).1 hev
+      cases this
+      refine .srcNil hs ht ?_
+      rcases hold with h | ⟨k, h⟩
+      · subst h; exact .inl rfl
+      · subst h; exact .inr ⟨k, rfl⟩
+    · have := ihc _ inner se t x _ n v' n' hin hx (.inr ⟨64, rfl⟩) hev
+      exact .srcPtr hs ht this
   | @slice _ _ se te elem hs ht hel =>
     unfold evalConv at hev
     rcases wt_slice_inv hwt hs with rfl | ⟨l, vs, rfl, hvs⟩
